@@ -7,7 +7,7 @@ import TapkeeVerif.Model.Connected
 in : `conn N=5 lists=1,2;2,0;0,1;0,4;3,0`
 out: `c=<1|0|oob|fuel> sc=<0|1> r0=<0|1>`      model `isConnected`; oracles `stronglyConnected`, `reachFromZero`
 in : `fn method=.. k=3 check=1 <space> ids=<final lists> kfinal=<k of the returned lists> levels=<k:lists|k:lists..>`
-out: `mtried=.. mk=.. same=<0|1> sc=<0|1> need=<ok|bad@k> exact=<ok|bad@k:i> uni=<0|1>`
+out: `mtried=.. mk=.. same=<0|1> seq=<ok|diff:r|-> sc=<0|1> need=<ok|bad@k> exact=<ok|bad@k:i> uni=<0|1>`
      the model recursion `findNeighbors` runs with `search k` := the lists the implementation's own search returned
      for that k (`levels`), so that ties broken differently cannot hide or fake a difference in the recursion/DFS;
      `sc`   : the final graph is strongly connected (what C03 promises);
@@ -61,12 +61,21 @@ def answerFn (fs : List (String × String)) : String :=
           (g.zipIdx.find? fun (l, i) => !isExactKnn sp.dist pts kk i l).map fun (_, i) => s!"bad@{kk}:{i}" with
         | none => "ok"
         | some e => e
-      let orc := s!"sc={b2s (stronglyConnected ids sp.N)} need={need} exact={exact} uni={b2s (uniform ids sp.N)}"
+      -- the final lists themselves must be exact k-NN lists for the returned k (a failing input if not)
+      let fexact := match (ids.zipIdx.find? fun (l, i) => !isExactKnn sp.dist pts kfinal i l) with
+        | none => "ok"
+        | some (_, i) => s!"bad@{i}"
+      let rounds? := (field? fs "rounds") >>= String.toNat?
+      let orc := s!"sc={b2s (stronglyConnected ids sp.N)} need={need} exact={exact} fexact={fexact} uni={b2s (uniform ids sp.N)}"
       match findNeighbors search sp.N check (findFuel sp.N) k [] with
       | .ok f =>
         let same := f.graph == ids && f.k == kfinal
         let mt := String.intercalate "," (f.tried.map toString)
-        s!"mtried={mt} mk={f.k} same={b2s same} {orc}"
+        -- number of searches: the implementation's (observed through the callback) against the model's tried sequence
+        let seq := match rounds? with
+          | none => "-"
+          | some r => if r == f.tried.length then "ok" else s!"diff:{r}"
+        s!"mtried={mt} mk={f.k} same={b2s same} seq={seq} {orc}"
       | .oob => s!"mtried=oob mk=- same=0 {orc}"
       | .fuelOut => s!"mtried=fuel mk=- same=0 {orc}"
     | _, _, _ => "bad-case impl-fields"
